@@ -3,7 +3,7 @@
 from kernel.type import BoolType
 from kernel.term import Term
 
-LEFT, RIGHT = range(2)
+LEFT, RIGHT, NONASSOC = range(3)
 CONST, UNARY, BINARY = range(3)
 
 class OperatorData():
@@ -70,15 +70,15 @@ op_data_raw = [
     OperatorData("real_divide", 70, assoc=LEFT, ascii_op="/"),
     OperatorData("nat_divide", 70, assoc=LEFT, ascii_op="DIV"),
     OperatorData("nat_modulus", 70, assoc=LEFT, ascii_op="MOD"),
-    OperatorData("less_eq", 50, assoc=LEFT, ascii_op="<=", unicode_op="≤"),
-    OperatorData("less", 50, assoc=LEFT, ascii_op="<"),
-    OperatorData("greater_eq", 50, assoc=LEFT, ascii_op=">=", unicode_op="≥"),
-    OperatorData("greater", 50, assoc=LEFT, ascii_op=">"),
+    OperatorData("less_eq", 50, assoc=NONASSOC, ascii_op="<=", unicode_op="≤"),
+    OperatorData("less", 50, assoc=NONASSOC, ascii_op="<"),
+    OperatorData("greater_eq", 50, assoc=NONASSOC, ascii_op=">=", unicode_op="≥"),
+    OperatorData("greater", 50, assoc=NONASSOC, ascii_op=">"),
     OperatorData("zero", 0, arity=CONST, ascii_op="0"),
     OperatorData("append", 65, assoc=RIGHT, ascii_op="@"),
     OperatorData("cons", 64, assoc=RIGHT, ascii_op="#"),
-    OperatorData("member", 50, assoc=LEFT, ascii_op="Mem", unicode_op="∈"),
-    OperatorData("subset", 50, assoc=LEFT, ascii_op="Sub", unicode_op="⊆"),
+    OperatorData("member", 50, assoc=NONASSOC, ascii_op="Mem", unicode_op="∈"),
+    OperatorData("subset", 50, assoc=NONASSOC, ascii_op="Sub", unicode_op="⊆"),
     OperatorData("inter", 70, assoc=LEFT, ascii_op="Int", unicode_op="∩"),
     OperatorData("union", 63, assoc=LEFT, ascii_op="Un", unicode_op="∪"),
     OperatorData("empty_set", 0, arity=CONST, ascii_op="{}", unicode_op="∅"),
